@@ -1,4 +1,5 @@
 import CifModel.Lemmas.ParserStoreSim
+import CifModel.Lemmas.ParserTraceShape
 import CifModel.Props.C04
 /-
   Lemmas/ParserStoreRun — the store calls of a parse as a HISTORY of the store model (group gX), layer 2: the world of `Store.step`
@@ -125,6 +126,7 @@ structure Rep (o : Opts) (m : HMap) (w : World) (s : Store.Store) (last : Option
   nch : m.nCh = w.chs.length
   nlh : m.nLh = w.lhs.length
   ch : ∀ p h, m.ch p = some h → ∃ k b e, p = [k] ∧ BlockAt (absS s.db) k b ∧ w.chs.getD h none = some e ∧ e.cif = 0 ∧ e.h.id = b.cid
+  hasH : ∀ b ∈ (absS s.db).blocks, ∃ h, m.ch [b.name] = some h
   open_ : ∀ p, lastPath last = some p → ∃ l names k b e che, m.lh p = some (l, names) ∧ p = [k] ∧ BlockAt (absS s.db) k b ∧
       w.lhs.getD l none = some e ∧ e.cif = 0 ∧ w.chs.getD e.ch none = some che ∧ che.cif = 0 ∧ e.h.cid = b.cid ∧
       e.h.category = none ∧ OpenLoop o (absS s.db) b.cid e.h.loopNum names
@@ -213,7 +215,7 @@ theorem rep_mkBlock (o : Opts) (m : HMap) (w : World) (s : Store.Store) (last : 
   have hst := specStep_mkBlock_aw (absS s.db) _ w.chs w.lhs (some (mkName o false code)) len _ hspec
   obtain ⟨hres, hwok', s', hc', hA, hchs', hlhs', hits'⟩ := transfer w s sop _ _ _ _ hr.cifs hr.its hr.wok hin hst
   refine ⟨hin, by rw [hres], s', ?_, by rw [hA, htree']; rfl⟩
-  refine ⟨hc', hits', hwok', by rw [hA]; exact hinv', ?_, ?_, ?_, ?_⟩
+  refine ⟨hc', hits', hwok', by rw [hA]; exact hinv', ?_, ?_, ?_, ?_, ?_⟩
   · show m.nCh + 1 = _
     rw [hchs', List.length_append, hr.nch]; rfl
   · show m.nLh = _
@@ -232,6 +234,17 @@ theorem rep_mkBlock (o : Opts) (m : HMap) (w : World) (s : Store.Store) (last : 
       · rw [hr.nch]; exact getD_append_new _ _
     · obtain ⟨k, b, e, hpk, hb, he, h0, hid⟩ := hr.ch p h hp
       exact ⟨k, b, e, hpk, ⟨List.mem_append_left _ hb.1, hb.2⟩, getD_append_old _ _ _ _ he, h0, hid⟩
+  · intro b hb
+    rw [hA] at hb
+    rw [HMap.ch_cons]
+    split
+    · exact ⟨_, rfl⟩
+    · rcases List.mem_append.mp hb with h1 | h1
+      · exact hr.hasH b h1
+      · rename_i hne
+        simp only [List.mem_singleton] at h1
+        subst h1
+        exact absurd (by simp) hne
   · intro p hp; cases hp
 
 /-- cif_container_prune -/
@@ -250,10 +263,13 @@ theorem rep_prune (o : Opts) (m : HMap) (w : World) (s : Store.Store) (last : Op
   have hst := specStep_prune_aw (absS s.db) _ w.chs w.lhs h e he h0 hspec
   obtain ⟨hres, hwok', s', hc', hA, hchs', hlhs', hits'⟩ := transfer w s sop _ _ _ _ hr.cifs hr.its hr.wok hin hst
   refine ⟨hin, by rw [hres], s', ?_, by rw [hA, htree']; rfl⟩
-  refine ⟨hc', hits', hwok', by rw [hA]; exact hinv', by rw [hchs']; exact hr.nch, by rw [hlhs']; exact hr.nlh, ?_, ?_⟩
+  refine ⟨hc', hits', hwok', by rw [hA]; exact hinv', by rw [hchs']; exact hr.nch, by rw [hlhs']; exact hr.nlh, ?_, ?_, ?_⟩
   · intro p h' hp
     rw [hA, hchs']
     exact hr.ch p h' hp
+  · intro b' hb'
+    rw [hA] at hb'
+    exact hr.hasH b' hb'
   · intro p hp; cases hp
 
 /-- cif_container_create_loop -/
@@ -275,12 +291,15 @@ theorem rep_mkLoop (o : Opts) (m : HMap) (w : World) (s : Store.Store) (last : O
   have hst := specStep_mkLoop_aw (absS s.db) _ w.chs w.lhs h e none _ _ he h0 hspec
   obtain ⟨hres, hwok', s', hc', hA, hchs', hlhs', hits'⟩ := transfer w s sop _ _ _ _ hr.cifs hr.its hr.wok hin hst
   refine ⟨hin, by rw [hres], s', ?_, by rw [hA, htree']; rfl⟩
-  refine ⟨hc', hits', hwok', by rw [hA]; exact hinv', by rw [hchs']; exact hr.nch, ?_, ?_, ?_⟩
+  refine ⟨hc', hits', hwok', by rw [hA]; exact hinv', by rw [hchs']; exact hr.nch, ?_, ?_, ?_, ?_⟩
   · show m.nLh + 1 = _
     rw [hlhs', List.length_append, hr.nlh]; rfl
   · intro p h' hp
     rw [hA, hchs']
     exact hr.ch p h' hp
+  · intro b' hb'
+    rw [hA] at hb'
+    exact hr.hasH b' hb'
   · intro p hp
     have hpp : p = [k] := by simpa [lastPath] using hp.symm
     subst hpp
@@ -360,10 +379,13 @@ theorem rep_addPkt (o : Opts) (m : HMap) (w : World) (s : Store.Store) (last : O
   have hst := specStep_addPkt_aw (absS s.db) _ w.chs w.lhs l e che _ he h0 hch hcc hspec
   obtain ⟨hres, hwok', s', hc', hA, hchs', hlhs', hits'⟩ := transfer w s sop _ _ _ _ hr.cifs hr.its hr.wok hin hst
   refine ⟨hin, by rw [hres], s', ?_, by rw [hA, htree']; rfl⟩
-  refine ⟨hc', hits', hwok', by rw [hA]; exact hinv', by rw [hchs']; exact hr.nch, by rw [hlhs']; exact hr.nlh, ?_, ?_⟩
+  refine ⟨hc', hits', hwok', by rw [hA]; exact hinv', by rw [hchs']; exact hr.nch, by rw [hlhs']; exact hr.nlh, ?_, ?_, ?_⟩
   · intro p h' hp
     rw [hA, hchs']
     exact hr.ch p h' hp
+  · intro b' hb'
+    rw [hA] at hb'
+    exact hr.hasH b' hb'
   · intro p hp
     have hpp : [k] = p := by simpa [lastPath] using hp
     subst hpp
@@ -387,11 +409,14 @@ theorem rep_setVal (o : Opts) (m : HMap) (w : World) (s : Store.Store) (last : O
   have hst := specStep_setVal_aw (absS s.db) A' w.chs w.lhs h e _ _ he h0 hspec
   obtain ⟨hres, hwok', s', hc', hA, hchs', hlhs', hits'⟩ := transfer w s sop _ _ _ _ hr.cifs hr.its hr.wok hin hst
   refine ⟨hin, by rw [hres], s', ?_, by rw [hA, htree']; rfl⟩
-  refine ⟨hc', hits', hwok', by rw [hA]; exact hinv', by rw [hchs']; exact hr.nch, by rw [hlhs']; exact hr.nlh, ?_, ?_⟩
+  refine ⟨hc', hits', hwok', by rw [hA]; exact hinv', by rw [hchs']; exact hr.nch, by rw [hlhs']; exact hr.nlh, ?_, ?_, ?_⟩
   · intro p h' hp
     rw [hA, hchs']
     obtain ⟨k', b', e', hpk', hb', he', h0', hid'⟩ := hr.ch p h' hp
     exact ⟨k', b', e', hpk', ⟨by rw [hblocks']; exact hb'.1, hb'.2⟩, he', h0', hid'⟩
+  · intro b' hb'
+    rw [hA, hblocks'] at hb'
+    exact hr.hasH b' hb'
   · intro p hp; cases hp
 
 /-- **one recorded call** made in a state that meets what the parser side proves of every call (`docOk`, `wf`) and is `covered`:
@@ -493,6 +518,115 @@ theorem run_sim (o : Opts) : ∀ (tr : List SOp) (m : HMap) (w : World) (s : Sto
       · simpa only [Store.run] using hr'
       · rw [ht', ht1]; rfl
 
+/-- a path that resolves in the tree of a frame-free state has a handle in the translation table -/
+theorem ch_of_res (o : Opts) (m : HMap) (w : World) (s : Store.Store) (last : Option SOp) (hr : Rep o m w s last) (path : Path)
+    (hres : ResL o.norm path (absS s.db).tree) : ∃ h, m.ch path = some h := by
+  have hfind : ∀ k c, (absS s.db).tree.find? (codeIs o.norm k) = some c → ∃ b ∈ (absS s.db).blocks, c = blkTree (absS s.db) b ∧ b.name = k := by
+    intro k c hf
+    have hm := List.mem_of_find?_eq_some hf
+    have hk := List.find?_some hf
+    rw [tree_noframes _ hr.inv.frames] at hm
+    obtain ⟨b, hb, rfl⟩ := List.mem_map.mp hm
+    refine ⟨b, hb, rfl, ?_⟩
+    simp only [codeIs, blkTree_eq, Container.code, ← hr.inv.blkNorm b hb] at hk
+    simpa using hk
+  unfold ResL at hres
+  cases path with
+  | nil => simp [getIn] at hres
+  | cons k rest =>
+    cases rest with
+    | nil =>
+      simp only [getIn] at hres
+      cases hf : (absS s.db).tree.find? (codeIs o.norm k) with
+      | none => rw [hf] at hres; simp at hres
+      | some c =>
+        obtain ⟨b, hb, _, hbk⟩ := hfind k c hf
+        rw [← hbk]
+        exact hr.hasH b hb
+    | cons k' ks =>
+      exfalso
+      simp only [getIn] at hres
+      cases hf : (absS s.db).tree.find? (codeIs o.norm k) with
+      | none => rw [hf] at hres; simp at hres
+      | some c =>
+        obtain ⟨b, hb, hc, _⟩ := hfind k c hf
+        rw [hf, hc] at hres
+        simp only [blkTree_eq, Container.frames] at hres
+        cases ks <;> simp [getIn] at hres
+
+/-- `rep_step` with the translation: a call whose container exists (`SOp.resOk`) has a translation -/
+theorem rep_step' (o : Opts) (m : HMap) (w : World) (s : Store.Store) (last : Option SOp) (op : SOp)
+    (hr : Rep o m w s last) (hokr : OkR o (absS s.db).tree) (hdoc : op.docOk o (absS s.db).tree) (hwf : op.wf)
+    (hres : op.resOk o (absS s.db).tree) (hcov : covered last op = true) :
+    ∃ sop m', storeOp o m op = some (sop, m') ∧ Store.inContract w sop = true ∧ (Store.step w sop).2.rc = some CIF_OK ∧
+      ∃ s', Rep o m' (Store.step w sop).1 s' (some op) ∧ (absS s'.db).tree = op.apply o (absS s.db).tree := by
+  have key : ∀ sop m', storeOp o m op = some (sop, m') → ∃ sop m', storeOp o m op = some (sop, m') ∧
+      Store.inContract w sop = true ∧ (Store.step w sop).2.rc = some CIF_OK ∧
+      ∃ s', Rep o m' (Store.step w sop).1 s' (some op) ∧ (absS s'.db).tree = op.apply o (absS s.db).tree :=
+    fun sop m' hso => ⟨sop, m', hso, rep_step o m w s last op sop m' hr hokr hdoc hwf hcov hso⟩
+  cases op with
+  | mkBlock code len => exact key _ _ rfl
+  | mkFrame parent code len => cases hcov
+  | setVal path n v =>
+    obtain ⟨h, hm⟩ := ch_of_res o m w s last hr path hres
+    exact key _ _ (by simp only [storeOp, hm]; rfl)
+  | mkLoop path names =>
+    obtain ⟨h, hm⟩ := ch_of_res o m w s last hr path hres
+    exact key _ _ (by simp only [storeOp, hm]; rfl)
+  | prune path =>
+    obtain ⟨h, hm⟩ := ch_of_res o m w s last hr path hres
+    exact key _ _ (by simp only [storeOp, hm]; rfl)
+  | addPkt path vals =>
+    have hlast : lastPath last = some path := by simpa [covered] using hcov
+    obtain ⟨l, names, _, _, _, _, hm, _⟩ := hr.open_ path hlast
+    exact key _ _ (by simp only [storeOp, hm]; rfl)
+
+/-- `run_sim` with the translation: the trace of calls whose containers exist HAS a translation -/
+theorem run_sim' (o : Opts) : ∀ (tr : List SOp) (m : HMap) (w : World) (s : Store.Store) (last : Option SOp),
+    Rep o m w s last →
+    (∀ k : Nat, OkR o ((tr.take k).foldl (fun c op => op.apply o c) (absS s.db).tree)) →
+    (∀ (k : Nat) (op : SOp), tr[k]? = some op → op.docOk o ((tr.take k).foldl (fun c op => op.apply o c) (absS s.db).tree)) →
+    (∀ (k : Nat) (op : SOp), tr[k]? = some op → op.resOk o ((tr.take k).foldl (fun c op => op.apply o c) (absS s.db).tree)) →
+    (∀ op ∈ tr, op.wf) → coveredFrom last tr = true → ∃ sops, storeOpsFrom o m tr = some sops
+  | [], m, w, s, last, _, _, _, _, _, _ => ⟨[], rfl⟩
+  | op :: tr, m, w, s, last, hr, hokr, hdoc, hres, hwf, hcov => by
+    simp only [coveredFrom, Bool.and_eq_true] at hcov
+    obtain ⟨sop, m1, hso, _, _, s1, hr1, ht1⟩ := rep_step' o m w s last op hr (hokr 0) (hdoc 0 op rfl) (hwf op List.mem_cons_self)
+      (hres 0 op rfl) hcov.1
+    obtain ⟨sops', hs'⟩ := run_sim' o tr m1 (Store.step w sop).1 s1 (some op) hr1
+      (fun k => by
+        have := hokr (k + 1)
+        rw [ht1]
+        simpa [List.take_succ_cons, List.foldl_cons] using this)
+      (fun k op' hk => by
+        have := hdoc (k + 1) op' (by simpa using hk)
+        rw [ht1]
+        simpa [List.take_succ_cons, List.foldl_cons] using this)
+      (fun k op' hk => by
+        have := hres (k + 1) op' (by simpa using hk)
+        rw [ht1]
+        simpa [List.take_succ_cons, List.foldl_cons] using this)
+      (fun op' h' => hwf op' (List.mem_cons_of_mem _ h')) hcov.2
+    exact ⟨sop :: sops', by simp only [storeOpsFrom, hso, hs', Option.map_some]⟩
+
+/-- the trace creates no save frame -/
+def noFrames (tr : List SOp) : Bool := tr.all fun | .mkFrame .. => false | _ => true
+
+theorem coveredFrom_of : ∀ (tr : List SOp) (last : Option SOp), noFrames tr = true → shapedFrom last tr = true → coveredFrom last tr = true
+  | [], _, _, _ => rfl
+  | op :: r, last, hn, hs => by
+    simp only [noFrames, List.all_cons, Bool.and_eq_true] at hn
+    simp only [shapedFrom, Bool.and_eq_true] at hs
+    have ih := coveredFrom_of r (some op) hn.2 hs.2
+    simp only [coveredFrom, ih, Bool.and_true]
+    cases op with
+    | mkFrame _ _ _ => simp at hn
+    | addPkt p v => simpa [covered] using hs.1
+    | mkBlock _ _ => rfl
+    | setVal _ _ _ => rfl
+    | mkLoop _ _ => rfl
+    | prune _ => rfl
+
 /-- the world after cif_create: one empty CIF -/
 theorem rep_start (o : Opts) : Rep o {} (Store.step {} .cifNew).1 {} none where
   cifs := rfl
@@ -502,17 +636,19 @@ theorem rep_start (o : Opts) : Rep o {} (Store.step {} .cifNew).1 {} none where
   nch := rfl
   nlh := rfl
   ch := by intro p h hp; cases hp
+  hasH := by intro b hb; cases hb
   open_ := by intro p hp; cases hp
 
 /-- **a whole parse into a new CIF**: the recorded calls, translated (`storeOps`) and run through the store model from the empty
     world, are an in-contract history of successful calls; afterwards the world satisfies `WOk` and its CIF shows (`Store.abs`)
-    exactly the CIF the parser model returns — for every trace that is `covered` -/
+    exactly the CIF the parser model returns — for every trace without save-frame creation -/
 theorem parse_store_sim (o : Opts) (pol : Lexer.Policy) (units : Str) (ops : List Store.Op)
-    (hcov : coveredFrom none (storeTrace o pol [] units) = true)
+    (hnf : noFrames (storeTrace o pol [] units) = true)
     (hso : storeOps o (storeTrace o pol [] units) = some ops) :
     Store.inContractHist {} ops = true ∧ (Store.run {} ops).2.all (fun r => r.rc == some 0) = true ∧ Store.WOk (Store.run {} ops).1 ∧
       ∃ s, (Store.run {} ops).1.cifs = [some s] ∧ (Store.run {} ops).1.its = [] ∧
         Store.abs s.db = (parse o pol [] units).cif := by
+  have hcov := coveredFrom_of _ none hnf (trace_shaped o pol [] units)
   unfold storeOps at hso
   simp only [Option.map_eq_some_iff] at hso
   obtain ⟨sops, hso', rfl⟩ := hso
@@ -528,5 +664,18 @@ theorem parse_store_sim (o : Opts) (pol : Lexer.Policy) (units : Str) (ops : Lis
   · simpa only [Store.run] using hr'.cifs
   · simpa only [Store.run] using hr'.its
   · rw [← Store.absS_tree, ht', parse_replay]; rfl
+
+/-- the trace of a parse without save-frame creation into a new CIF HAS a translation into a store history: every call finds the handle
+    of its container (`trace_paths_resolve`) -/
+theorem storeOps_total (o : Opts) (pol : Lexer.Policy) (units : Str) (hnf : noFrames (storeTrace o pol [] units) = true) :
+    ∃ ops, storeOps o (storeTrace o pol [] units) = some ops := by
+  have hcov := coveredFrom_of _ none hnf (trace_shaped o pol [] units)
+  have hokr : OkR o ([] : Cif) := ⟨⟨by simp [normCodes], by simp [OkCs]⟩, by simp [RectCif, RectCs]⟩
+  obtain ⟨sops, hs⟩ := run_sim' o (storeTrace o pol [] units) {} (Store.step {} .cifNew).1 {} none (rep_start o)
+    (fun k => trace_prefix_okR o pol [] units hokr k)
+    (fun k op hk => trace_calls_docOk o pol [] units hokr k op hk)
+    (fun k op hk => trace_paths_resolve o pol [] units k op hk)
+    (storeTrace_wf o pol [] units) hcov
+  exact ⟨Store.Op.cifNew :: sops, by unfold storeOps; rw [hs]; rfl⟩
 
 end CifModel.ParserSim
